@@ -1004,6 +1004,9 @@ class Package:
 
     def call(self, rel, name, *args, **kwargs):
         """Call a repository function (evaluated from source). Returns ('return', v) | ('raise', kind)."""
+        from .minieval import ID_MODEL
+
+        ID_MODEL.new_epoch()  # objects of earlier calls that have died give their id() back
         f = self.func(rel, name)
         try:
             return ("return", f(*args, **kwargs))
